@@ -47,7 +47,7 @@ import (
 )
 
 func init() {
-	register(&Prop{ID: "C21", Gen: genC21, Run: runC21, Timeout: 120 * time.Second})
+	register(&Prop{ID: "C21", Gen: genC21, Run: runC21, Timeout: 60 * time.Second})
 }
 
 func genC21(r *Rand, n int, tier string, emit func(string)) {
@@ -208,7 +208,7 @@ func runC21(op string) string {
 			close(enteredLast)
 			select {
 			case <-releaseLast:
-			case <-time.After(60 * time.Second):
+			case <-time.After(40 * time.Second):
 			}
 			return nil
 		}
@@ -234,7 +234,7 @@ func runC21(op string) string {
 				if i+1 < len(kinds) && kinds[i+1] == 'B' && holds < 3 {
 					holds++
 					// until the server has sent that roll-backward …
-					dl := time.After(20 * time.Second)
+					dl := time.After(10 * time.Second)
 				waitSent:
 					for {
 						sentMu.Lock()
@@ -397,7 +397,7 @@ func runC21(op string) string {
 	pos := 0 // index into events
 	evNo := 0
 	alive := true
-	deadline := time.Now().Add(60 * time.Second)
+	deadline := time.Now().Add(30 * time.Second)
 	for pos < len(events) && alive {
 		if lazy {
 			alive = drain(300 * time.Microsecond)
@@ -409,7 +409,7 @@ func runC21(op string) string {
 			// client has stopped asking (pacing: after a requested stop, once
 			// everything a stopped client can have asked for has been answered,
 			// there is nothing to wait for)
-			wait := 20 * time.Second
+			wait := 12 * time.Second
 			if stopAt > 0 {
 				stopTotal := 1
 				if stopAt > 1 {
@@ -481,7 +481,7 @@ func runC21(op string) string {
 		}
 	}
 	// wait for the callbacks of everything that was sent
-	cbDeadline := time.After(30 * time.Second)
+	cbDeadline := time.After(12 * time.Second)
 waitCb:
 	for {
 		mu.Lock()
@@ -552,7 +552,7 @@ waitCb:
 			if err != nil {
 				st = "err"
 			}
-		case <-time.After(30 * time.Second):
+		case <-time.After(12 * time.Second):
 		}
 		drain(20 * time.Millisecond)
 		ec := "noerr"
